@@ -55,9 +55,10 @@ def plain_data(F, ty, seen=None):
             return 'foreign type %s' % p
         if a['kind'] == 'union':
             return 'union %s' % p
+        from ..interp import subst_ty
         for v in a['variants']:
             for f in v['fields']:
-                r = plain_data(F, f['ty'], seen)
+                r = plain_data(F, subst_ty(f['ty'], ty.get('args') or []), seen)
                 if r:
                     return '%s.%s: %s' % (p.split('::')[-1], f['name'], r)
         return None
@@ -70,11 +71,13 @@ def storage_clause(chk, F, which, model):
     fs = a['variants'][0]['fields']
     ok = model.array_len == 16 and model.array_field_private
     chk.ob('%s/storage/%s/%s/array' % (PID, cfg, which), 'storage shape', 'proved' if ok else 'refuted',
-           subject={'at': a['span']['at'], 'type': model.outer}, expected='private fields, exactly one of them an array [per-channel state; 16]',
+           subject={'at': a['span']['at'], 'type': model.outer}, expected='private fields, the per-channel state in array(s) of 16 elements',
            found=[(f['name'], f['vis'].split('(')[0], f['ty']['k'], f['ty'].get('len')) for f in fs], nontrivial=False)
-    r = plain_data(F, model.sub_ty)
-    for i in model.extra:
-        r = r or plain_data(F, fs[i]['ty'])
+    r = None
+    for ety in model.elem_tys:
+        r = r or plain_data(F, ety)
+    for pth in model.extra:
+        r = r or plain_data(F, model.leaf_ty[pth])
     chk.ob('%s/storage/%s/%s/plain-data' % (PID, cfg, which), 'storage shape', 'proved' if r is None else 'refuted',
            subject={'type': model.sub or model.outer}, expected='scanner state holds plain data only (no reference, pointer, interior mutability)',
            found=r or 'plain', nontrivial=False)
@@ -140,8 +143,7 @@ def reporting_clause(chk, F, which):
         outs = I.run(hit[0], [], hit[1]) if hit else []
         ok = len(outs) == 1 and outs[0].kind == 'return' and isinstance(outs[0].value, Ag)
         if ok:
-            arr = outs[0].value.fields[model.ai] if len(outs[0].value.fields) > model.ai else None
-            ok = isinstance(arr, Ar) and len(arr.elems) == 16 and all(val_key(e) == val_key(arr.elems[0]) for e in arr.elems)
+            ok = model.uniform(outs[0].value)
         chk.ob(key, 'identical start', 'proved' if ok else 'refuted', expected='16 identical elements', found=[o.kind for o in outs])
     guarded(chk, key, 'identical start', ev)
 
